@@ -15,7 +15,7 @@ ASSUMPTIONS = ["dyadic penalties", "the pivot is one of the remaining elements (
 
 
 def budget(tier):
-    return 600 if tier == "quick" else 12000
+    return 1500 if tier == "quick" else 15000
 
 
 def gen(rng, index, tier):
